@@ -99,20 +99,36 @@ def gen_residue(rng, resname, tag, nested=False):
                   'vs3out': [round(rng.uniform(0.1, 0.5), 3), round(rng.uniform(0.1, 0.5), 3), round(rng.uniform(-2.0, 2.0), 3)]}[kind]
         atoms.append({'name': f'{tag}W', 'atype': rng.choice(sorted(systems.ATOMTYPES)), 'mass': 0.0})
         vs2nd = {'kind': kind, 'site': n + 1, 'atoms': defining, 'params': params, 'func': {'vs3': 1, 'vs3fd': 2, 'vs3out': 4}[kind]}
-    return {'resname': resname, 'atoms': atoms, 'bonds': bonds, 'angles': angles, 'impropers': impropers, 'vs': vs, 'vs2nd': vs2nd}
+    # some of the distance targets are written as [ constraints ] (same graph edges, same tolerance)
+    as_constraints = sorted(bi for bi in range(len(bonds)) if rng.random() < 0.25) if rng.random() < 0.4 else []
+    return {'resname': resname, 'atoms': atoms, 'bonds': bonds, 'angles': angles, 'impropers': impropers, 'vs': vs, 'vs2nd': vs2nd,
+            'as_constraints': as_constraints}
+
+
+def frustrated_case(rng, constraints):
+    """a triangle whose target lengths violate the triangle inequality (written as bonds or as constraints): it cannot be
+    built within the tolerance, so it has to be reported"""
+    short = round(rng.uniform(0.25, 0.32), 3)
+    res = {'resname': 'RF', 'atoms': [{'name': f'F{k}', 'atype': 'P1', 'mass': 72.0} for k in range(3)],
+           'bonds': [(0, 1, short), (1, 2, short), (0, 2, round(2 * short + rng.uniform(0.18, 0.3), 3))], 'angles': [], 'impropers': [],
+           'vs': None, 'vs2nd': None, 'as_constraints': [0, 1, 2] if constraints else []}
+    return {'defs': [res, gen_residue(rng, 'RA', 'A')], 'moltypes': [('MA', [0, 1])], 'build': None}
 
 
 def moltype_text(name, residues):
     """residues: list of residue definitions in chain order; consecutive residues bonded first atom to first atom"""
     out = ['[ moleculetype ]', f'{name} 1', '[ atoms ]']
     first, idx = [], 1
-    bonds, angles, vs_lines, dihedrals = [], [], {}, []
+    bonds, angles, vs_lines, dihedrals, constraints = [], [], {}, [], []
     for r, res in enumerate(residues):
         first.append(idx)
         for k, a in enumerate(res['atoms']):
             out.append(f"{idx + k} {a['atype']} {r + 1} {res['resname']} {a['name']} {idx + k} 0.0 {a['mass']}")
-        for i, j, l in res['bonds']:
-            bonds.append(f"{idx + i} {idx + j} 1 {l} 5000")
+        for bi, (i, j, l) in enumerate(res['bonds']):
+            if bi in res.get('as_constraints', ()):
+                constraints.append(f"{idx + i} {idx + j} 1 {l}")
+            else:
+                bonds.append(f"{idx + i} {idx + j} 1 {l} 5000")
         for i, j, k, th in res['angles']:
             angles.append(f"{idx + i} {idx + j} {idx + k} 2 {th} 50")
         for i, j, k, l, th in res.get('impropers', []):
@@ -131,6 +147,8 @@ def moltype_text(name, residues):
     for r in range(len(residues) - 1):
         bonds.append(f"{first[r]} {first[r + 1]} 1 0.4 5000")
     out += ['[ bonds ]'] + bonds
+    if constraints:
+        out += ['[ constraints ]'] + constraints
     if angles:
         out += ['[ angles ]'] + angles
     if dihedrals:
@@ -474,7 +492,7 @@ def run(ctx):
         ctx.broken.append('correspondence:translator-validation (evaluation failed)')
     rng = ctx.rng
     cases = [F9_CASE, F23_CASE] + [c for _, c in core.corpus_cases('C15')] + [nested_case(rng) for _ in range(ctx.n(10, 80))] + \
-        [gen_case(rng) for _ in range(ctx.n(40, 400))]
+        [gen_case(rng) for _ in range(ctx.n(40, 400))] + [frustrated_case(rng, constraints=k % 2 == 0) for k in range(ctx.n(4, 20))]
     exprs, keep = [], []
     with systems.Workdir() as wd:
         for case in cases:
@@ -498,6 +516,10 @@ def run(ctx):
                 ctx.feature('runs_ok')
                 if any('Failed to optimize' in m for m in out['log']):
                     ctx.feature('optimisation_failed_reported')
+            if any(d.get('as_constraints') for d in case['defs']):
+                ctx.feature('residue_with_constraints')
+            if case['defs'][0]['resname'] == 'RF':
+                ctx.feature('frustrated_' + ('constraints' if case['defs'][0]['as_constraints'] else 'bonds'))
             for msg, finding in judge(case, out)[:3]:
                 ctx.violation('spec', f"C15 fails on the implementation: {msg}", {'case': case, 'failure': msg}, finding=finding)
             if 'error' not in out:
